@@ -650,7 +650,10 @@ ReadDesc(D, v) ==
 
 Read(t, v) ==
     CASE t.c = "prim"  -> ReadPrim(t.p, v)
-      [] t.c = "opt"   -> IF v = Extant /\ ~(t.e.c = "prim" /\ t.e.p = "value") THEN Ok(NoneI)
+      \* OptionRecognizer: an extant value is first offered to the inner recognizer; None only if that refuses it
+      \* (so for Option<Option<_>>, Option<Value>, Option<()> an extant value is Some(..))
+      [] t.c = "opt"   -> IF v = Extant
+                          THEN LET r == Read(t.e, v) IN IF r.ok THEN Ok(SomeI(r.x)) ELSE Ok(NoneI)
                           ELSE LET r == Read(t.e, v) IN IF r.ok THEN Ok(SomeI(r.x)) ELSE Fail
       [] t.c = "quant" -> IF v = Txt("infinite") THEN Ok(InfI)
                           ELSE LET r == Read(t.e, v) IN IF r.ok THEN Ok(FinI(r.x)) ELSE Fail
